@@ -270,6 +270,11 @@ func (o *Obligation) solveStage(stage string, tier string, idx int) bool {
 	os.WriteFile(file, []byte(script), 0644)
 	r := runSolver("z3-new", file, tmo)
 	o.Ms += r.Ms
+	if stage == "B" && r.Result == "timeout" {
+		// undecided for lack of time, not for lack of instances: the same query gets a longer limit
+		// before the full query is tried (a loaded machine must not turn a 2 s proof into an alarm)
+		o.retryB = true
+	}
 	if r.Result == "unsat" {
 		o.Result, o.Solver, o.RawOut = "unsat", "z3-new ("+label+")", ""
 		if tier == "thorough" {
@@ -445,6 +450,25 @@ func (o *Obligation) solve(tier string, idx int) {
 	if o.Result == "trivial" {
 		o.Solver = "simplifier"
 		return
+	}
+	if o.retryB && o.ScriptB != "" && !o.Cover {
+		o.retryB = false
+		tmo := 16
+		if tier == "thorough" {
+			tmo = 32
+		}
+		file := filepath.Join(workDir, fmt.Sprintf("q%05d_B2.smt2", idx))
+		os.WriteFile(file, []byte(o.ScriptB), 0644)
+		r := runSolver("z3-new", file, tmo)
+		o.Ms += r.Ms
+		if r.Result == "unsat" {
+			o.Result, o.Solver, o.RawOut = "unsat", "z3-new (goal-directed instances, second attempt)", ""
+			o.Scripts, o.ScriptsG = nil, nil
+			if tier == "thorough" {
+				o.crossCheck(file)
+			}
+			return
+		}
 	}
 	if len(o.Scripts) > 0 {
 		scripts := o.Scripts
